@@ -13,7 +13,8 @@
 From Coq Require Import ZArith List Bool.
 From NV Require Import Base.Result Base.Bytes Model.TlvMem Model.T2T Model.T1T Model.IsoDep Model.T3T Model.T4T
   Model.TagAct Model.TagReadAny Model.TagReadAnyB
-  Proofs.IsoDepStream Proofs.TagSafeAct Proofs.TagSafeTlv Proofs.TagSafeCmd Proofs.TagSafeIface Proofs.TagSafeBlk Proofs.TagSafeDep.
+  Model.TagLoad
+  Proofs.IsoDepStream Proofs.TagSafeAct Proofs.TagSafeTlv Proofs.TagSafeCmd Proofs.TagSafeLoad Proofs.TagSafeIface Proofs.TagSafeBlk Proofs.TagSafeDep.
 Import ListNotations.
 Open Scope Z_scope.
 
@@ -40,12 +41,13 @@ Proof. exact t2_demand_le. Qed.
 Print Assumptions C08_t2_demand_le.
 (* command bound in terms of the data area (b14 = size byte of the capability container, data area = 8 * b14 bytes):
    the demand is at most t2_demand_bound, i.e. one READ per 16 bytes of it, two SECTOR SELECT packets per KiB and three
-   tries for the command that is not answered - at most 17856 commands for the largest data area; when the tag does
+   tries for the command that is not answered - at most 11108 commands for the largest data area (when every answered
+   command is answered at once; with retries see C08_t2_read_any_responses); when the tag does
    not even deliver byte 14, C08_t2_demand_le gives a demand of at most 15 bytes (one READ, tried three times) *)
 Theorem C08_t2_read_cmds : forall em b14, bytes_ok em -> rd em 14 = Ok b14 ->
   snd (t2_read_d em) <= t2_demand_bound (b14 * 8 + 16) /\
   t2_cmds_max (snd (t2_read_d em)) <= t2_cmds_max (t2_demand_bound (b14 * 8 + 16)) /\
-  t2_cmds_max (t2_demand_bound (b14 * 8 + 16)) <= 17856.
+  t2_cmds_max (t2_demand_bound (b14 * 8 + 16)) <= 11108.
 Proof. intros em b14 Hb E. split; [apply t2_read_demand_bound; assumption | apply t2_read_cmds; assumption]. Qed.
 Print Assumptions C08_t2_read_cmds.
 (* the repair is conservative: where the NDEF TLV fits, the reader of C01-C03 (Model/T2T.v) is unchanged *)
@@ -79,6 +81,39 @@ Theorem C08_t1_unrepaired_refuted :
   t1_read_any 18 ex_t1_overrun = Ok None.
 Proof. exact t1_read_legacy_refuted. Qed.
 Print Assumptions C08_t1_unrepaired_refuted.
+
+(* ================================================================ readers over response scripts *)
+(* The command layer (Model/TagLoad.v): a script gives the outcome of EVERY clf.exchange() call - any byte string of any
+   length, no answer, transmission / protocol error.  tag.ndef of a new tag object: the result is Ok - no NDEF, or an NDEF
+   state that is sound on the image the memory reader built out of the answers - and the number of frames sent is bounded:
+   3 per 16 bytes of demand + 4 per sector change (+4), at most 32983 for the largest Type 2 data area; 54 for Type 1. *)
+Theorem C08_t2_read_any_responses : forall script, Forall rx_ok script ->
+  let '(r, frames) := t2_read_responses script in
+  (r = Ok None \/ exists L, r = Ok (Some L) /\ tlv_sound (t2_image script) 16 L /\ l_dend L <= 2056) /\
+  len frames <= t2_wire_max (snd (t2_read_d (t2_image script))) /\
+  t2_wire_max (snd (t2_read_d (t2_image script))) <= 32983.
+Proof. exact t2_read_any_responses. Qed.
+Print Assumptions C08_t2_read_any_responses.
+Theorem C08_t1_read_any_responses : forall uid script, Forall rx_ok script ->
+  let '(r, frames) := t1_read_responses uid script in
+  (r = Ok None \/ exists L, r = Ok (Some L) /\ tlv_sound (t1_image uid script) 12 L /\ l_dend L <= 2048) /\
+  len frames <= t1_wire_max.
+Proof. exact t1_read_any_responses. Qed.
+Print Assumptions C08_t1_read_any_responses.
+(* the loaders themselves: for every script they stop with an image of bytes (no Crash, no Hang) within the frame bound *)
+Theorem C08_t2_load_total : forall fuel w cur acc stop, wire_ok w -> bytes_ok acc -> stop <= T2_MAX ->
+  0 <= cur <= len acc / 1024 -> (stop - len acc + 15) / 16 <= Z.of_nat fuel ->
+  let '(st, em, c', w') := t2_load fuel w cur acc stop in
+  (st = LDone \/ st = LFail) /\ bytes_ok em /\ (st = LDone -> stop <= len em) /\
+  cur <= c' /\ c' <= Z.max cur ((stop - 1) / 1024) /\
+  nsent w' <= nsent w + 3 * Z.max 0 ((stop - len acc + 15) / 16) + 4 * (c' - cur) + 4.
+Proof. exact t2_load_spec. Qed.
+Print Assumptions C08_t2_load_total.
+Theorem C08_t1_load_total : forall script uid stop, Forall rx_ok script ->
+  let '(st, hdr, em, w) := t1_load script uid stop in
+  (st = LDone \/ st = LFail) /\ (hdr = [] \/ exists h0 h1, hdr = [h0; h1]) /\ bytes_ok em /\ nsent w <= t1_wire_max.
+Proof. exact t1_load_spec. Qed.
+Print Assumptions C08_t1_load_total.
 
 (* ---- Type 3: any responder script - the result is Ok, no NDEF or a sound NDEF state; at most 3 frames for
         polling, the attribute block and each block of the data area (Nmaxb <= 65535) *)
